@@ -499,3 +499,21 @@ func Nested(t *rapid.T, q int64) [][]P {
 	}
 	return rings
 }
+
+// Annulus: a rectangular frame whose hole is the shell inset by a generated width (below, at or above a pixel): when it is
+// thinner than a pixel shell and hole snap to the same ring and cancel each other.
+func Annulus(t *rapid.T, q int64) [][]P {
+	w := rapid.Int64Range(2*q, 8*q).Draw(t, "frameW")
+	h := rapid.Int64Range(2*q, 8*q).Draw(t, "frameH")
+	d := rapid.Int64Range(1, q+q/2).Draw(t, "frameThickness")
+	if 2*d >= w-1 {
+		d = max((w-2)/2, 1)
+	}
+	if 2*d >= h-1 {
+		d = max((h-2)/2, 1)
+	}
+	ox, oy := rapid.Int64Range(0, q).Draw(t, "ox"), rapid.Int64Range(0, q).Draw(t, "oy")
+	shell := []P{{ox, oy}, {ox + w, oy}, {ox + w, oy + h}, {ox, oy + h}}
+	hole := []P{{ox + d, oy + d}, {ox + w - d, oy + d}, {ox + w - d, oy + h - d}, {ox + d, oy + h - d}}
+	return [][]P{shell, hole}
+}
